@@ -254,4 +254,176 @@ theorem missingRequiredError_isSome (c : Cmd) (u : UInfo) (ok : UsageOk c) (m : 
     · exact hex q hq
 
 
+/-! ### the validator's conflict error -/
+
+/-- `unroll_args_in_group` collects args only -/
+theorem unrollArgsInGroup_args (c : Cmd) : ∀ (fuel : Nat) (gvec args res : List Id),
+    (∀ x ∈ args, (c.find x).isSome = true) → unrollArgsInGroup c fuel gvec args = some res →
+    ∀ x ∈ res, (c.find x).isSome = true := by
+  intro fuel
+  induction fuel with
+  | zero =>
+    intro gvec args res h hr
+    cases gvec <;> (simp only [unrollArgsInGroup, Option.some.injEq] at hr; subst hr; exact h)
+  | succ fuel ih =>
+    intro gvec args res h hr
+    cases gvec with
+    | nil => simp only [unrollArgsInGroup, Option.some.injEq] at hr; subst hr; exact h
+    | cons g gs =>
+      unfold unrollArgsInGroup at hr
+      split at hr
+      · cases hr
+      · next grp _ =>
+        simp only at hr
+        refine ih _ _ res ?_ hr
+        -- the fold adds to the first component only ids that `find` knows
+        have key : ∀ (ns : List Id) (acc : List Id × List Id), (∀ x ∈ acc.1, (c.find x).isSome = true) →
+            ∀ x ∈ (ns.foldl (fun (acc : List Id × List Id) n =>
+              if acc.1.contains n then acc
+              else if (c.find n).isSome then (acc.1 ++ [n], acc.2)
+              else (acc.1, n :: acc.2)) acc).1, (c.find x).isSome = true := by
+          intro ns
+          induction ns with
+          | nil => intro acc h' x hx; exact h' x hx
+          | cons n ns ihn =>
+            intro acc h'
+            simp only [List.foldl_cons]
+            apply ihn
+            split
+            · exact h'
+            · split
+              · next hfn =>
+                intro x hx
+                rcases List.mem_append.mp hx with hx | hx
+                · exact h' x hx
+                · simp only [List.mem_singleton] at hx; exact hx ▸ hfn
+              · exact h'
+        exact key grp.args (args, []) h
+
+theorem argsInGroup_args (c : Cmd) (g : Id) (ms : List Id) (h : argsInGroup c g = some ms) :
+    ∀ x ∈ ms, (c.find x).isSome = true :=
+  unrollArgsInGroup_args c _ [g] [] ms (by intro x hx; cases hx) h
+
+/-- the ids `build_conflict_err` lists are args, when the conflicting ids exist -/
+theorem conflictOthers_spec (c : Cmd) (wg : C01.GroupsOk c) : ∀ (confs seen : List Id),
+    (∀ x ∈ confs, Exists' c x) → (∀ x ∈ seen, (c.find x).isSome = true) →
+    ∃ res, conflictOthers c confs seen = some res ∧ ∀ x ∈ res, (c.find x).isSome = true := by
+  intro confs
+  induction confs with
+  | nil => intro seen _ hs; exact ⟨seen, rfl, hs⟩
+  | cons cid rest ih =>
+    intro seen hc hs
+    have hrest := fun x hx => hc x (List.mem_cons_of_mem cid hx)
+    unfold conflictOthers
+    simp only
+    have dedupe : ∀ (ids acc : List Id), (∀ x ∈ ids, (c.find x).isSome = true) → (∀ x ∈ acc, (c.find x).isSome = true) →
+        ∀ x ∈ ids.foldl (fun acc i => if acc.contains i then acc else acc ++ [i]) acc, (c.find x).isSome = true := by
+      intro ids acc hi ha x hx
+      rcases (C12.mem_customHeadings_fold ids x acc).mp hx with h | h
+      · exact ha x h
+      · exact hi x h
+    by_cases hg : (c.findGroup cid).isSome = true
+    · have hsome : (argsInGroup c cid).isSome = true :=
+        C01.unrollArgsInGroup_isSome c wg _ [cid] [] (by intro x hx; simp only [List.mem_singleton] at hx; exact hx ▸ hg)
+      cases ha : argsInGroup c cid with
+      | none => rw [ha] at hsome; cases hsome
+      | some ids =>
+        simp only [hg, ↓reduceIte, ha]
+        exact ih _ hrest (dedupe ids seen (argsInGroup_args c cid ids ha) hs)
+    · simp only [hg, Bool.false_eq_true, ↓reduceIte]
+      apply ih _ hrest
+      apply dedupe [cid] seen _ hs
+      intro x hx
+      simp only [List.mem_singleton] at hx
+      subst hx
+      rcases hc x List.mem_cons_self with h | h
+      · exact h
+      · exact absurd h hg
+
+/-- every id `gather_conflicts` returns is a key of the potential-conflict table -/
+theorem gatherConflicts_keys (c : Cmd) (pot : List (Id × List Id)) (id : Id) (confs : List Id)
+    (h : gatherConflicts c pot id = some confs) : ∀ x ∈ confs, ∃ p ∈ pot, p.1 = x := by
+  unfold gatherConflicts at h
+  simp only at h
+  obtain ⟨own, _, rfl⟩ := Option.map_eq_some_iff.mp h
+  intro x hx
+  obtain ⟨p, hp, hxp⟩ := List.mem_flatMap.mp hx
+  split at hxp
+  · cases hxp
+  · rcases List.mem_append.mp hxp with h1 | h1
+    · split at h1
+      · simp only [List.mem_singleton] at h1; exact ⟨p, hp, h1.symm⟩
+      · cases h1
+    · split at h1
+      · simp only [List.mem_singleton] at h1; exact ⟨p, hp, h1.symm⟩
+      · cases h1
+
+/-- **building the validator's `ArgumentConflict` error never fails**, when the keys of the potential-conflict table
+(the explicitly present ids of the matcher) are args or groups of the level -/
+theorem conflictError_isSome (c : Cmd) (u : UInfo) (ok : UsageOk c) (m : ArgMap) (pot : List (Id × List Id))
+    (hpot : ∀ p ∈ pot, Exists' c p.1) : (conflictError c u m pot).isSome = true := by
+  have hreq := requiredGraph_exists c ok.refs
+  unfold conflictError
+  simp only
+  split
+  · rw [Option.isSome_map]
+    exact usageWithTitle_isSome_any c u ok _ [] hreq (by intro q hq; cases hq)
+  · -- the loop over the explicit args
+    have key : ∀ (ids : List Id), (∀ id ∈ ids, (c.find id).isSome = true) → (conflictError.go c u m pot ids).isSome = true := by
+      intro ids
+      induction ids with
+      | nil => intro _; rfl
+      | cons id rest ih =>
+        intro hids
+        have hrest := fun x hx => hids x (List.mem_cons_of_mem id hx)
+        unfold conflictError.go
+        have hgc := C01.gatherConflicts_isSome c pot id
+        cases hg : gatherConflicts c pot id with
+        | none => rw [hg] at hgc; cases hgc
+        | some confs =>
+          cases confs with
+          | nil => exact ih hrest
+          | cons cf cfs =>
+            simp only
+            have hconfs : ∀ x ∈ cf :: cfs, Exists' c x := by
+              intro x hx
+              obtain ⟨p, hp, hpx⟩ := gatherConflicts_keys c pot id _ hg x hx
+              exact hpx ▸ hpot p hp
+            obtain ⟨others, ho, hoa⟩ := conflictOthers_spec c ok.groups (cf :: cfs) [] hconfs (by intro x hx; cases hx)
+            have hf := hids id List.mem_cons_self
+            cases hfi : c.find id with
+            | none => rw [hfi] at hf; cases hf
+            | some former =>
+              have hu : (conflictUsage c u m (cf :: cfs)).isSome = true := by
+                unfold conflictUsage
+                apply usageWithTitle_isSome_any c u ok _ _ hreq
+                intro q hq
+                rcases List.mem_append.mp hq with hq | hq
+                · obtain ⟨hq1, _⟩ := List.mem_filter.mp hq
+                  obtain ⟨a, ha, hqa⟩ := List.mem_flatMap.mp hq1
+                  obtain ⟨k, _, hk⟩ := List.mem_filterMap.mp ha
+                  obtain ⟨pr, hpr, rfl⟩ := List.mem_map.mp hqa
+                  exact ok.refs.1 a (C03.find_mem hk).1 pr hpr
+                · obtain ⟨hq1, _⟩ := List.mem_filter.mp hq
+                  have := (List.mem_filter.mp hq1).2
+                  cases hfq : c.find q with
+                  | none => simp [hfq] at this
+                  | some a => exact Or.inl (by simp [hfq])
+              cases hcu : conflictUsage c u m (cf :: cfs) with
+              | none => rw [hcu] at hu; cases hu
+              | some line =>
+                rw [ho]
+                simp only
+                rw [Option.isSome_map]
+                apply C01.mapM_isSome'
+                intro i hi
+                have := hoa i hi
+                cases hfi2 : c.find i with
+                | none => rw [hfi2] at this; cases this
+                | some a => rfl
+    apply key
+    intro id hid
+    exact (List.mem_filter.mp hid).2
+
+
 end Clap.C10E
